@@ -297,6 +297,9 @@ class XMLReader(object):
                 xml_file.close()
         except ET.XMLSyntaxError as exc:
             raise ParserException(exc.msg)
+        except ValueError as exc:
+            # e.g. a text stream whose content carries an XML encoding declaration
+            raise ParserException(str(exc))
 
         self._handle_version(root)
         doc = self.parse_element(root)
